@@ -28,6 +28,8 @@ macro_rules! dispatch {
             "C10" => $f(props::c10::C10, $($arg),*),
             "C11" => $f(props::c11::C11, $($arg),*),
             "C12" => $f(props::c12::C12, $($arg),*),
+            "C13" => $f(props::c13::C13, $($arg),*),
+            "C15" => $f(props::c15::C15, $($arg),*),
             "C16" => $f(props::c16::C16, $($arg),*),
             "C17" => $f(props::c17::C17, $($arg),*),
             "C18" => $f(props::c18::C18, $($arg),*),
@@ -142,6 +144,9 @@ fn main() {
             let id = a[2].as_str();
             let rc = dispatch!(id, do_run, &args, also);
             std::process::exit(rc);
+        }
+        "crash-child" => {
+            std::process::exit(props::c13::child_main(&a[2..]));
         }
         "isolated" => {
             if a.len() < 4 {
